@@ -421,13 +421,13 @@ func (p *Persister) flushNow(ctx context.Context, batch map[string]persistData, 
 	// by anyone else, so it cannot be reused underneath a Wait; the closer
 	// goroutine below converts it into a channel close, which is what callers
 	// actually observe.
-	verifhook.Yield(p, "persister.callbacks")
 	var cbWg sync.WaitGroup
 	cbWg.Add(len(batch))
 	for _, data := range batch {
 		// execute callbacks in go routines to make sure they can't block this function
 		go func(cb PersistCallback) {
 			defer cbWg.Done()
+			verifhook.Yield(p, "persister.callback")
 			cb(err)
 		}(data.callback)
 	}
